@@ -510,7 +510,8 @@ impl SimWorker {
             .map(|(rq, v)| json!([rq.as_num(), v.as_num()]))
             .collect();
         blocked.sort_by_key(|b| (b[0].as_u64(), b[1].as_u64()));
-        json!({"id": self.worker_id.as_num(), "running": running, "backlog": backlog, "blocked": blocked})
+        json!({"id": self.worker_id.as_num(), "running": running, "backlog": backlog, "blocked": blocked,
+               "free": state.allocator.verif_free_amounts()})
     }
 }
 
